@@ -71,6 +71,22 @@ func bufFnSummaries(c *core.Ctx) map[*ssa.Function]*bufFnSummary {
 			for _, ret := range returnsOf(fn) {
 				rs := core.ReturnResults(ret)
 				n++
+				// `return g(…)`: both results of one call are passed on — g's summary is inherited
+				if ex0, ok := rs[0].(*ssa.Extract); ok && hasErr && ex0.Index == 0 {
+					if exE, ok := rs[len(rs)-1].(*ssa.Extract); ok && exE.Tuple == ex0.Tuple {
+						if gc, ok := ex0.Tuple.(*ssa.Call); ok {
+							if g := core.StaticCallee(gc); g != nil && sum[g] != nil && sum[g].born {
+								if !sum[g].neverNil {
+									neverNil = false
+									if !sum[g].nilOnErr {
+										nilOnErr = false
+									}
+								}
+								continue
+							}
+						}
+					}
+				}
 				bi := bornOf(c, fn, rs[0], ret.Block(), sum, 0)
 				if core.IsNilConst(rs[0]) {
 					neverNil = false
